@@ -1,4 +1,5 @@
 """C20 -- the introspector reports what was configured."""
+import ast
 import json
 import os
 from harness.common import facts as F
@@ -36,12 +37,19 @@ TRUSTED = ['translator harness/c20/translate.py: control flow of Introspector.ad
 TECHNIQUE = ('Coq proof over an Introspector state machine; the executable program is REGENERATED from registry.py / actions.py on '
              'every run by a fail-closed ast->Gallina translator (state-passing, exceptions with partial states) and proved equal '
              'to the hand-written reference model (generated = model theorems, one induction per loop); reflective vm_compute '
-             'theorems over directive tables regenerated from source and documentation; extracted-model differential '
-             'correspondence (the regenerated program is what runs against the real Introspector); sentinel-argument scenarios')
+             'theorems over directive tables regenerated from source and documentation (one row per introspectable site: every '
+             'key with the normal form of the stored expression -- argument, normalisation of an argument, literal that is the '
+             'truth value of the same-named argument on its path (path-truth), constant, other -- plus wiring facts: the entry '
+             'reaches introspectables= of an action and runs under an action method); extracted-model differential '
+             'correspondence (the regenerated program is what runs against the real Introspector); sentinel-argument scenarios '
+             'for every directive that builds or forwards an entry, in every combination of its boolean flags, reading every '
+             'key back (documented normalisations such as property := property or reify are judged by value); shape pins for '
+             'the hand-followed rest; tools/coverage_map.py --property C20 reports 0 untied functions in the anchor files')
 LEVEL_TEXT = ('Theorems: the program regenerated from the current source equals the reference model for every method and on every '
               'operation sequence (C20_generated_*_is_model, C20_generated_run_is_model); every key of every regenerated directive '
-              'table that names a directive argument records that argument (keys_faithful) and every documented category/key is '
-              'recorded by a directive of that category; for the Introspector state machine, for every operation sequence: '
+              'table that names a directive argument records that argument or a normalisation of it, a boolean literal counting '
+              'only on a path that decides the argument (keys_faithful); every documented category/key is recorded by a directive '
+              'of that category; every site hands its entry to an action and runs under an action method (sites_wired); for the Introspector state machine, for every operation sequence: '
               'relations are symmetric and exact, get returns the latest registration, remove erases the entry, disabled '
               'introspection records nothing, only executed actions are recorded -- the last four also restated about the '
               'regenerated program (..._generated).')
@@ -77,12 +85,27 @@ def facts(src):
     problems = []
     summary = F.check_shapes(src, os.path.join(HERE, 'pins.json'), problems)
     sites, pr = X.extract(src)
-    problems += [p for p in pr if 'predicates.py:_add_predicate' not in p]  # category passed as a parameter there
+    problems += pr
     try:
         doc = X.documented(os.path.dirname(src))
     except OSError as e:
         problems.append('cannot read docs/narr/introspector.rst: %s' % e)
         doc = {}
+    # class-level bindings the directives rely on: `self.introspectable(..)` builds a registry.Introspectable
+    try:
+        cm = F.Module(src, 'pyramid/config/__init__.py')
+        cls = [c for c in cm.tree.body if isinstance(c, ast.ClassDef) and c.name == 'Configurator']
+        binds = [ast.unparse(st) for st in (cls[0].body if cls else []) if isinstance(st, ast.Assign)
+                 and any(isinstance(t, ast.Name) and t.id in ('introspectable', 'introspector') for t in st.targets)]
+        want_b = ['introspectable = Introspectable',
+                  'introspector = property(_get_introspector, _set_introspector, _del_introspector)']
+        if sorted(binds) != sorted(want_b):
+            problems.append('class-level bindings of Configurator.introspectable / introspector are %s, expected %s' % (binds, want_b))
+        imp = [ast.unparse(st) for st in cm.tree.body if isinstance(st, ast.ImportFrom) and st.module == 'pyramid.registry']
+        if not any('Introspectable' in i and 'Introspector' in i and ' as ' not in i for i in imp):
+            problems.append('pyramid/config/__init__.py no longer imports Introspectable / Introspector from pyramid.registry: %s' % imp)
+    except (OSError, SyntaxError) as e:
+        problems.append('cannot parse pyramid/config/__init__.py: %s' % e)
     # the introspector program, regenerated from the source text (harness/c20/translate.py)
     gen, tpr, tsum, masked = T.translate_tree(src)
     problems += tpr
@@ -109,6 +132,10 @@ def facts(src):
             F.coq_texts(s['params']), keys))
     lines.append(';\n'.join(ents) + '].\n')
     # templates.name is the renderer's name (documented), not add_view's name argument
+    # wiring of every site: (reaches the introspectables= argument of an action, runs under an action method)
+    lines.append('Definition sites_wiring : list (text * (bool * bool)) := [\n' + ';\n'.join(
+        '  (%s, (%s, %s))' % (F.coq_text(s_['func'] + '.' + s_['var']), 'true' if s_['registered'] else 'false',
+                              'true' if s_['action_method'] else 'false') for s_ in sites) + '].\n')
     # (the `property` key holds `property or reify`: the documented normalisation, judged by value in the scenario stream)
     exc = [('add_request_method.intr', 'property'), ('add_view.tmpl_intr', 'name')]
     lines.append('Definition doc_exceptions : list (text * text) := [%s].\n' % '; '.join(
@@ -413,9 +440,24 @@ def _scenarios():
             c.set_authorization_policy(z)
         return call, {'policy': z}
     S['set_authorization_policy'] = ('set_authorization_policy', custom(0, authz))
-
     def deco(view):
         return view
+
+    # directives that build no entry of their own but hand their arguments to add_view: judged against add_view's table
+    common = dict(attr=None, request_method='PUT', request_param='vp', containment=IB, accept='text/plain',
+                  header='X-V', path_info='/vpi', match_param='a=b', decorator=deco, mapper=None)
+    S['add_forbidden_view'] = ('add_view', simple('add_forbidden_view', view=mk('fview'), xhr=V(True, False), **common))
+    S['add_notfound_view'] = ('add_view', simple('add_notfound_view', view=mk('nfview'), xhr=V(False, True), **common))
+
+    class Boom(Exception):
+        pass
+    S['add_exception_view'] = ('add_view', simple('add_exception_view', view=mk('excview'), context=Boom,
+                                                  xhr=V(True, False), **common))
+    for fam in ('view', 'route', 'subscriber'):
+        S['add_%s_predicate' % fam] = ('_add_predicate', simple(
+            'add_%s_predicate' % fam, name='zz_%s_pred' % fam, factory=mk(fam + '_pred_factory'),
+            weighs_more_than=None, weighs_less_than=None))
+
 
     S['add_view'] = ('add_view', simple(
         'add_view', view=mk('view'), name='vname', context=IA, containment=IB, request_param='vp',
@@ -443,6 +485,9 @@ EXPECT_CATEGORY = {
     'set_view_mapper': 'view mappers', 'add_accept_view_order': 'accept view order', 'add_view': 'views',
     'add_static_view': 'static views', 'add_cache_buster': 'cache busters', 'override_asset': 'asset overrides',
     'set_authentication_policy': 'authentication policy', 'set_authorization_policy': 'authorization policy',
+    'add_view_predicate': 'view predicates', 'add_route_predicate': 'route predicates',
+    'add_subscriber_predicate': 'subscriber predicates',
+    'add_forbidden_view': 'views', 'add_notfound_view': 'views', 'add_exception_view': 'views',
 }
 
 _SC = {}
